@@ -327,3 +327,81 @@ Proof.
            apply IH. fold n. exists (i - 2 ^ n), k. repeat split; try lia; try assumption.
            exists (j - 2 ^ (n - k)). rewrite (pow2_split n k) by lia. lia.
 Qed.
+
+(** * 4. AllPaths *)
+
+Lemma Height_log2 T : 1 <= T < 2 ^ 32 -> Height T = Z.log2 T.
+Proof.
+  intros HT. unfold Height, u32. rewrite Z.mod_small by lia.
+  destruct T as [|p|p]; try lia. unfold bitlen. lia.
+Qed.
+
+Lemma Height_range T : 1 <= T < 2 ^ 31 -> 0 <= Height T <= 30.
+Proof.
+  intros HT. rewrite Height_log2 by (change (2 ^ 32) with 4294967296; change (2 ^ 31) with 2147483648 in HT; lia).
+  pose proof (Z.log2_nonneg T). assert (Z.log2 T < 31) by (apply Z.log2_lt_pow2; lia). lia.
+Qed.
+
+Lemma tbl_in size f i : 0 <= i < size -> tbl size f i = Some (f i).
+Proof.
+  intros Hi. unfold tbl. replace (0 <=? i) with true by (symmetry; apply Z.leb_le; lia).
+  replace (i <? size) with true by (symmetry; apply Z.ltb_lt; lia). reflexivity.
+Qed.
+
+Lemma in_window_win from to w : in_window from to w = in_win from to w.
+Proof. reflexivity. Qed.
+
+(** the general statement: any height 0..30, any level mask *)
+Lemma allpaths_blocks T h from to : 0 <= h <= 30 -> 0 <= from < 2 ^ 64 -> 0 <= to < 2 ^ 64 ->
+  let t0 := u64 (shr64 to 32 + 1) in
+  let t := if t0 >? Bit h then Bit h else t0 in
+  let i0 := shr64 from 32 in
+  allpaths_outer (Z.to_nat (t - i0)) T h (Mask h) i0 from to =
+  filter (in_window from to) (stored_words T (Z.to_nat h)).
+Proof.
+  intros Hh Hf Ht t0 t i0.
+  assert (Hp : 0 < 2 ^ h <= 2 ^ 30) by (split; [apply pow2_pos; lia|apply pow2_le; lia]).
+  change (2 ^ 30) with 1073741824 in Hp. change (2 ^ 64) with 18446744073709551616 in Hf, Ht.
+  assert (Ei0 : i0 = from / 4294967296) by reflexivity.
+  assert (Et0 : t0 = to / 4294967296 + 1).
+  { unfold t0, shr64, u64. change (32 <? 64) with true. cbv iota.
+    change (2 ^ 32) with 4294967296. change (2 ^ 64) with 18446744073709551616.
+    apply Z.mod_small. pose proof (Z.div_pos to 4294967296 ltac:(lia) ltac:(lia)).
+    assert (to / 4294967296 < 4294967296) by (apply Z.div_lt_upper_bound; lia). lia. }
+  assert (Hi0 : 0 <= i0) by (rewrite Ei0; apply Z.div_pos; lia).
+  assert (Hi0' : i0 * 4294967296 <= from < (i0 + 1) * 4294967296).
+  { rewrite Ei0. pose proof (Z.div_mod from 4294967296 ltac:(lia)).
+    pose proof (Z.mod_pos_bound from 4294967296 ltac:(lia)). lia. }
+  assert (Ht0' : (t0 - 1) * 4294967296 <= to < t0 * 4294967296).
+  { rewrite Et0. pose proof (Z.div_mod to 4294967296 ltac:(lia)).
+    pose proof (Z.mod_pos_bound to 4294967296 ltac:(lia)). lia. }
+  assert (Htle : t <= 2 ^ h /\ t <= t0 /\ (t = 2 ^ h \/ t = t0)).
+  { unfold t, Bit. destruct (Z.gtb_spec t0 (2 ^ h)); lia. }
+  clearbody t0 i0 t.
+  set (js := zrange i0 (Z.to_nat (t - i0))).
+  assert (Hjs : forall j, In j js -> 0 <= j < 2 ^ h).
+  { intros j Hj. apply zrange_In in Hj. lia. }
+  rewrite outer_scan. fold js. change (in_window from to) with (in_win from to).
+  rewrite scan_fst_window by (apply sasc_wasc, blocks_sasc; [lia|exact Hjs|apply zrange_sasc]).
+  apply sasc_ext.
+  - apply sasc_filter, blocks_sasc; [lia|exact Hjs|apply zrange_sasc].
+  - apply sasc_filter, stored_words_sasc. lia.
+  - intros w. rewrite !filter_In, stored_words_In, blocks_In by (lia || exact Hjs).
+    rewrite Z2Nat.id by lia. unfold isword. split.
+    + intros ((i & k & Hi & Hk & Hj & Hb & E) & Hw). split; [|exact Hw].
+      exists i, k. repeat split; try (apply Hjs; exact Hi); try lia; assumption.
+    + intros ((i & k & Hi & Hk & Hj & Hb & E) & Hw). split; [|exact Hw].
+      exists i, k. repeat split; try lia; try assumption.
+      apply zrange_In. unfold in_win in Hw. apply andb_true_iff in Hw. destruct Hw as (H1 & H2).
+      apply Z.leb_le in H1. apply Z.ltb_lt in H2.
+      assert (0 < 2 ^ k <= 2 ^ h) by (split; [apply pow2_pos; lia|apply pow2_le; lia]).
+      change (2 ^ 32) with 4294967296 in E. lia.
+Qed.
+
+Lemma allpaths_correct T from to : 1 <= T < 2 ^ 31 -> 0 <= from < 2 ^ 64 -> 0 <= to < 2 ^ 64 ->
+  AllPaths T from to = Some (spec_allpaths T (Z.to_nat (Height T)) from to).
+Proof.
+  intros HT Hf Ht. pose proof (Height_range T HT) as Hh. unfold AllPaths, spec_allpaths.
+  unfold tblBit, tblMask. rewrite !tbl_in by lia. f_equal.
+  apply allpaths_blocks; assumption.
+Qed.
